@@ -371,6 +371,37 @@ Inductive fail_kind := FPre | FRender | FTransport | FPost.
 Definition fk_sent (k : fail_kind) : bool :=
   match k with FPre | FRender => false | FTransport | FPost => true end.
 
+(* Executable specification of one shot's observation.  steps: (name, id) of the scenario's
+   expanded steps; sent: ids the target received; samples: (step name, success?) in report
+   order.  True iff: samples are one per step for a prefix of the steps, in order; every
+   sample but the last is a success and its request was received; if the last is a failure
+   nothing follows it and its request was received at most once; if all are successes every
+   step was executed; nothing else was received. *)
+Fixpoint order_stop_b (steps : list (bytes * N)) (sent : list N) (samples : list (bytes * bool)) : bool :=
+  match samples with
+  | [] => match steps with [] => (match sent with [] => true | _ => false end) | _ => false end
+  | (nm, ok) :: srest =>
+      match steps with
+      | [] => false
+      | (snm, sid) :: steps' =>
+          beq nm snm &&
+          (if ok then
+             match sent with
+             | id :: sent' => N.eqb id sid && order_stop_b steps' sent' srest
+             | [] => false
+             end
+           else
+             match srest with
+             | [] => match sent with
+                     | [] => true
+                     | [id] => N.eqb id sid
+                     | _ => false
+                     end
+             | _ => false
+             end)
+      end
+  end.
+
 Section Shot.
   Variables (W Src Req Rend Resp V : Type).
 
@@ -402,18 +433,22 @@ Section Shot.
   Variable o_post : Req -> Resp -> W -> W * option vars.         (* all postprocessors, merged *)
   Variable o_status : Resp -> Z.
 
+  (* what the earlier steps of this shot produced, newest first:
+     (step name, preprocessor vars, postprocessor vars) — ghost state, only recorded *)
+  Definition history := list (bytes * vars * vars).
+
   Inductive event :=
-  | EvRender (j : nat) (t : tree)                 (* ghost: the tree handed to the templater *)
+  | EvRender (j : nat) (name : bytes) (t : tree) (h : history) (pv : vars)
+      (* ghost: the tree handed to the templater, the history so far, the step's own preprocessor output *)
   | EvSend (j : nat) (r : Rend)
-  | EvOut (j : nat) (pre post : vars)             (* ghost: what the step's processors produced *)
   | EvSampleOk (j : nat) (name : bytes) (status : Z)
   | EvSampleFail (j : nat) (name : bytes) (k : fail_kind)
   | EvPause (j : nat) (ms : Z).
 
   Inductive outcome := Done | FailedAt (j : nat) (k : fail_kind).
 
-  Definition step (j : nat) (rq : Req) (sl : Z) (t : tree) (w : W)
-    : list event * W * (tree + fail_kind) :=
+  Definition step (j : nat) (rq : Req) (sl : Z) (t : tree) (h : history) (w : W)
+    : list event * W * (tree * history + fail_kind) :=
     let nm := rname rq in
     let t0 := t_set t nm {| sv_pre := None; sv_post := None |} in
     let '(w1, p) := o_pre rq t0 w in
@@ -423,54 +458,57 @@ Section Shot.
         let t1 := t_set t0 nm {| sv_pre := Some pv; sv_post := None |} in
         let '(w2, r) := o_render rq t1 w1 in
         match r with
-        | None => ([EvRender j t1; EvSampleFail j nm FRender], w2, inr FRender)
+        | None => ([EvRender j nm t1 h pv; EvSampleFail j nm FRender], w2, inr FRender)
         | Some rend =>
             let '(w3, x) := o_exec rend w2 in
             match x with
-            | None => ([EvRender j t1; EvSend j rend; EvSampleFail j nm FTransport], w3, inr FTransport)
+            | None => ([EvRender j nm t1 h pv; EvSend j rend; EvSampleFail j nm FTransport], w3, inr FTransport)
             | Some resp =>
                 let '(w4, q) := o_post rq resp w3 in
                 match q with
-                | None => ([EvRender j t1; EvSend j rend; EvSampleFail j nm FPost], w4, inr FPost)
+                | None => ([EvRender j nm t1 h pv; EvSend j rend; EvSampleFail j nm FPost], w4, inr FPost)
                 | Some pov =>
                     let t2 := t_set t1 nm {| sv_pre := Some pv; sv_post := Some pov |} in
-                    (EvRender j t1 :: EvSend j rend :: EvOut j pv pov :: EvSampleOk j nm (o_status resp)
+                    (EvRender j nm t1 h pv :: EvSend j rend :: EvSampleOk j nm (o_status resp)
                        :: (if (0 <? sl)%Z then [EvPause j sl] else []),
-                     w4, inl t2)
+                     w4, inl (t2, (nm, pv, pov) :: h))
                 end
             end
         end
     end.
 
   (* for _, req := range ammo.Requests { ... if err != nil { reportErr; return err } } *)
-  Fixpoint run (j : nat) (steps : list (Req * Z)) (t : tree) (w : W)
+  Fixpoint run (j : nat) (steps : list (Req * Z)) (t : tree) (h : history) (w : W)
     : list event * W * outcome :=
     match steps with
     | [] => ([], w, Done)
     | (rq, sl) :: rest =>
-        let '(ev, w1, ot) := step j rq sl t w in
+        let '(ev, w1, ot) := step j rq sl t h w in
         match ot with
         | inr k => (ev, w1, FailedAt j k)
-        | inl t1 =>
-            let '(ev2, w2, o) := run (S j) rest t1 w1 in
+        | inl (t1, h1) =>
+            let '(ev2, w2, o) := run (S j) rest t1 h1 w1 in
             (ev ++ ev2, w2, o)
         end
     end.
 
   (* templateVars = {"source": ..., "request": {}} is fresh in every Shoot *)
   Definition shoot (src : Src) (steps : list (Req * Z)) (w : W) : list event * W * outcome :=
-    run 0 steps {| t_src := src; t_req := [] |} w.
+    run 0 steps {| t_src := src; t_req := [] |} [] w.
 
   (* ---- observation helpers ---- *)
   Definition ev_index (e : event) : nat :=
     match e with
-    | EvRender j _ | EvSend j _ | EvOut j _ _ | EvSampleOk j _ _ | EvSampleFail j _ _ | EvPause j _ => j
+    | EvRender j _ _ _ _ | EvSend j _ | EvSampleOk j _ _ | EvSampleFail j _ _ | EvPause j _ => j
     end.
   Definition ev_rank (e : event) : nat :=
     match e with
-    | EvRender _ _ => 0 | EvSend _ _ => 1 | EvOut _ _ _ => 2
-    | EvSampleOk _ _ _ => 3 | EvSampleFail _ _ _ => 3 | EvPause _ _ => 4
+    | EvRender _ _ _ _ _ => 0 | EvSend _ _ => 1
+    | EvSampleOk _ _ _ => 2 | EvSampleFail _ _ _ => 2 | EvPause _ _ => 3
     end.
+  (* position of an event in the shot: steps in order, within a step render < send < sample < pause *)
+  Definition ev_key (e : event) : nat := 4 * ev_index e + ev_rank e.
+
   Definition sends (evs : list event) : list nat :=
     flat_map (fun e => match e with EvSend j _ => [j] | _ => [] end) evs.
   Definition samples (evs : list event) : list (nat * option Z) :=
@@ -480,28 +518,45 @@ Section Shot.
                        | _ => [] end) evs.
   Definition pauses (evs : list event) : list (nat * Z) :=
     flat_map (fun e => match e with EvPause j ms => [(j, ms)] | _ => [] end) evs.
-  Definition renders (evs : list event) : list (nat * tree) :=
-    flat_map (fun e => match e with EvRender j t => [(j, t)] | _ => [] end) evs.
-  Definition outs (evs : list event) : list (nat * (vars * vars)) :=
-    flat_map (fun e => match e with EvOut j a b => [(j, (a, b))] | _ => [] end) evs.
+
+  (* ---- executable specification of "order, stop at the first failure", evaluated on an
+          observation: ids of the requests the target received (in order) and, per reported
+          sample, the step name and whether it is a success ---- *)
+  Variable rid : Req -> N.
+  Variable rend_id : Rend -> N.
+
+  Definition send_ids (evs : list event) : list N :=
+    flat_map (fun e => match e with EvSend _ r => [rend_id r] | _ => [] end) evs.
+  Definition sample_obs (evs : list event) : list (bytes * bool) :=
+    flat_map (fun e => match e with
+                       | EvSampleOk _ nm _ => [(nm, true)]
+                       | EvSampleFail _ nm _ => [(nm, false)]
+                       | _ => [] end) evs.
+  Definition step_obs (steps : list (Req * Z)) : list (bytes * N) :=
+    map (fun p => (rname (fst p), rid (fst p))) steps.
 
   (* ---- specification of variable visibility ---- *)
-  (* what steps 0..j-1 produced, newest first: (step name, preprocessor vars, postprocessor vars) *)
-  Definition history := list (bytes * vars * vars).
-
   Fixpoint latest (h : history) (name : bytes) : option (vars * vars) :=
     match h with
     | [] => None
     | (k, a, b) :: r => if beq k name then Some (a, b) else latest r name
     end.
 
-  (* the entry of request [name] that step [cur] (with own preprocessor output [pv]) may see *)
+  (* the entry of request [name] that a step called [cur], whose own preprocessor produced
+     [pv], may see, given the history [h] of the earlier steps of this shot *)
   Definition visible (h : history) (cur : bytes) (pv : vars) (name : bytes) : option stepvars :=
     if beq cur name then Some {| sv_pre := Some pv; sv_post := None |}
     else match latest h name with
          | Some (a, b) => Some {| sv_pre := Some a; sv_post := Some b |}
          | None => None
          end.
+
+  (* pauses the documentation promises for an executed prefix of the steps *)
+  Fixpoint pauses_spec (j : nat) (steps : list (Req * Z)) : list (nat * Z) :=
+    match steps with
+    | [] => []
+    | (_, sl) :: rest => (if (0 <? sl)%Z then [(j, sl)] else []) ++ pauses_spec (S j) rest
+    end.
 End Shot.
 
 Arguments sv_pre {V} _.
@@ -512,9 +567,8 @@ Arguments t_req {Src V} _.
 Arguments Build_tree {Src V} _ _.
 Arguments rm_get {V} _ _.
 Arguments rm_set {V} _ _ _.
-Arguments EvRender {Src Rend V} _ _.
+Arguments EvRender {Src Rend V} _ _ _ _ _.
 Arguments EvSend {Src Rend V} _ _.
-Arguments EvOut {Src Rend V} _ _ _.
 Arguments EvSampleOk {Src Rend V} _ _ _.
 Arguments EvSampleFail {Src Rend V} _ _ _.
 Arguments EvPause {Src Rend V} _ _.
@@ -711,6 +765,9 @@ Fixpoint c_post_go (ps : list cpost) (resp : cresp) (acc : list (bytes * bytes))
 Definition c_post (rq : creq) (resp : cresp) (w : cworld) : cworld * option (list (bytes * bytes)) :=
   (w, c_post_go (cq_post rq) resp []).
 
+Definition c_send_ids := send_ids csrc crend bytes rd_id.
+Definition c_sample_obs := sample_obs csrc crend bytes.
+Definition c_step_obs := step_obs creq cq_name cq_id.
 Definition c_shoot := shoot cworld csrc creq crend cresp bytes cq_name c_pre c_render c_exec c_post rs_status.
 
 Definition cevent := event csrc crend bytes.
@@ -785,6 +842,28 @@ Fixpoint run_shots (src : csrc) (exps : list (list (creq * Z))) (ring : list nat
           let '(evs, w1, o) := c_shoot src steps w in
           {| sr_scen := si; sr_events := evs; sr_out := o |} :: run_shots src exps ring (S k) n' w1
       end
+  end.
+
+(* guards of the specification-side functions, as booleans for the driver *)
+Definition weights_ok_b (scs : list cscen) : bool :=
+  forallb (fun s => (0 <=? sc_weight s)%Z) scs.
+
+(* the documented reading of a whole request list; None when an entry does not read, a
+   multiplicity is 0 or the list starts with a sleep (C15_expand does not apply) *)
+Fixpoint items_all (reqs : list (bytes * creq)) (shoots : list bytes) : option (list (item creq)) :=
+  match shoots with
+  | [] => Some []
+  | sh :: rest =>
+      match item_of creq reqs sh, items_all reqs rest with
+      | Some (IReq r n p), Some l => if Nat.eqb n 0 then None else Some (IReq r n p :: l)
+      | Some (ISleep ms), Some l => Some (ISleep ms :: l)
+      | _, _ => None
+      end
+  end.
+Definition items_of (reqs : list creq) (scs : list cscen) (sc : cscen) : option (list (item creq)) :=
+  match items_all (map (fun r => (cq_name r, set_owner scs r)) reqs) (sc_shoots sc) with
+  | Some (ISleep _ :: _) => None
+  | x => x
   end.
 
 (* well-formedness of a case for the concrete instance: every table has at least one row *)
